@@ -4,7 +4,7 @@ from decimal import Decimal
 from hypothesis import strategies as st
 
 D = Decimal
-FR = ["0", "0.000001", "0.1", "0.5", "0.9", "1", "1.000001", "1.5", "10"]
+FR = ["0", "0.000001", "0.1", "0.5", "0.9", "1", "1.000001", "1.00005", "1.5", "10"]
 FR_OK = ["0.05", "0.1", "0.3", "0.5", "0.9", "1"]
 KINDS = ["uni", "aave", "sq", "opt", "glp", "gm"]
 
@@ -220,7 +220,9 @@ def st_prog(draw, order, nbars, mode="loop", max_ops=14, open_bars=()):
     for _ in range(draw(st.integers(1, max_ops))):
         key = draw(st.sampled_from(keys))
         bar = draw(st.integers(0, nbars - 1)) if mode == "loop" else 0
-        phase = draw(st.sampled_from(["before", "trigger", "on", "on", "after", "notify"] if mode == "loop" else ["on"]))
+        phase = draw(st.sampled_from(["before", "trigger", "on", "on", "after", "notify", "init"] if mode == "loop" else ["on"]))
+        if phase == "init":
+            bar = 0  # operations issued from Strategy.initialize(): recorded in, and notified at the end of, the first bar
         prog.append([bar, phase] + draw(st_op(key)))
     # preludes: with probability 1/2 per market, operations that establish a holding early (so later ones meet state)
     pre = []
@@ -343,6 +345,7 @@ def st_universe(draw, mode="loop", kinds=None, max_bars=8, max_ops=14, need=None
         case["gm"] = draw(st_gm(n, D(eth[0])))
     case["wallet"] = {"USDC": draw(st.sampled_from(["0", "5000", "100000", "100000"])), "WETH": draw(st.sampled_from(["0", "2", "50", "50"])), "OSQTH": draw(st.sampled_from(["0", "0", "30"])),
                       "DAI": draw(st.sampled_from(["0", "20000"])), "ETH": draw(st.sampled_from(["0", "20", "20"])), "WAVAX": draw(st.sampled_from(["0", "500"]))}
+    case["sparse_wallet"] = draw(st.booleans())  # tokens with a zero balance have no wallet entry at all
     nbars = (start + n - 1) // k - start // k + 1
     first_bin = start // k
     open_bars = [b for b in range(nbars) if ((first_bin + b) * k) % 60 == 0 and (first_bin + b) * k >= (start // 60) * 60]
